@@ -26,3 +26,4 @@ run M48 flow.cfg C09
 run M13 sched_inv.cfg C09
 run M15 sched_inv.cfg C11
 run M16 sched_inv.cfg C12
+run M05 ping_cup_inv.cfg C02
